@@ -36,7 +36,71 @@ Proof.
     apply repeat_spec in Hx. subst x. exact Hd.
 Qed.
 
-(* NEXT (not finished in round 2): rep_step / ctor_rep_merge
-     same_prog (compile (PRep i [] (m * n) body) [] G) (compile (PRep i [] n (PRep j [] m body)) [] G)
-   from the two lemmas above via framed_ma + brel_place: Node (m*n) W K against Node n [] [Node m W K]
-   (windows: tile_nest, voltages: cplay_single_node twice + walk_repeat_nest). *)
+Lemma concat_repeat_nest {A} (x : list A) m n : concat (repeat (concat (repeat x m)) n) = concat (repeat x (n * m)).
+Proof. induction n; cbn [repeat concat Nat.mul]; [reflexivity|]. rewrite IHn, repeat_app, concat_app. reflexivity. Qed.
+
+(* the two program nodes: one repetition of m*n against n repetitions of a node repeating m times *)
+Lemma flat_rep_nest m n W W' K : flat (Node n W' [Node m W K]) = flat (Node (m * n) W K).
+Proof. cbn [flat flat_map]. rewrite app_nil_r, concat_repeat_nest, Nat.mul_comm. reflexivity. Qed.
+Lemma windows_rep_nest m n W K : windows (Node n [] [Node m W K]) = windows (Node (m * n) W K).
+Proof.
+  rewrite (windows_node n), (windows_node (m * n)). cbn [app]. rewrite cwins_single, windows_node.
+  rewrite body_dur_cons, ldur_node. change (body_dur []) with 0. rewrite Z.add_0_r, tile_nest, Nat.mul_comm. reflexivity.
+Qed.
+Lemma krel_rep_nest m n W K : krel [Node (m * n) W K] [Node n [] [Node m W K]].
+Proof.
+  split; [|split; [split; discriminate|]].
+  - rewrite !body_dur_cons, !ldur_node, body_dur_cons, ldur_node. change (body_dur []) with 0. rewrite Nat2Z.inj_mul. lia.
+  - intros c t _. unfold cplay. cbn [flat_map]. rewrite !app_nil_r, flat_rep_nest. reflexivity.
+Qed.
+
+Lemma b_measure_nil_empty : b_measure b_empty [] = b_empty.
+Proof. reflexivity. Qed.
+
+(* RepetitionPT.with_repetition / `**` on an unnamed, measurement-free RepetitionPT: the counts are multiplied *)
+Lemma rep_step i j m n body cm mm G b b' : brel b b' ->
+  brel (internal [] (PRep i [] (m * n) body) cm mm G b) (internal [] (PRep i [] n (PRep j [] m body)) cm mm G b').
+Proof.
+  intros H. cbn [internal mwins map]. rewrite !create_nil.
+  set (inner := internal [] body cm mm G b_empty).
+  assert (LK : Forall lok (b_ch inner)) by (apply internal_lok; constructor).
+  destruct n as [|n'].
+  - rewrite Nat.mul_0_r. exact H.
+  - destruct m as [|m'].
+    + cbn [Nat.mul internal]. exact H.
+    + cbn [internal mwins map]. rewrite !create_nil. fold inner. cbn [Nat.mul plus].
+      destruct (b_ch inner) as [|x K] eqn:E.
+      * cbn [b_ch b_empty]. exact H.
+      * change (b_ch (b_append (b_measure b_empty []) (Node (S m') (b_meas inner) (x :: K))))
+          with [Node (S m') (b_meas inner) (x :: K)].
+        change (b_meas (b_append (b_measure b_empty []) (Node (S m') (b_meas inner) (x :: K)))) with (@nil win).
+        set (L := Node (S (n' + m' * S n')) (b_meas inner) (x :: K)).
+        set (L' := Node (S n') [] [Node (S m') (b_meas inner) (x :: K)]).
+        pose proof (framed_ma L []) as FL. pose proof (framed_ma L' []) as FL'.
+        assert (EL : S (n' + m' * S n') = (S m' * S n')%nat) by reflexivity.
+        apply (brel_beq _ _ _ _ (proj2 FL b) (proj2 FL' b')).
+        assert (LL : lok L) by (unfold L; apply lok_node; split; [lia|]; split; [discriminate|exact LK]).
+        assert (LL' : lok L').
+        { unfold L'. apply lok_node. split; [lia|]. split; [discriminate|]. constructor; [|constructor].
+          apply lok_node. split; [lia|]. split; [discriminate|exact LK]. }
+        apply brel_place; auto.
+        split.
+        -- unfold L, L'. rewrite EL. apply krel_rep_nest.
+        -- cbn [app]. rewrite !cwins_single. unfold L, L'. rewrite EL, windows_rep_nest. apply Permutation_refl.
+Qed.
+
+Theorem ctor_rep_merge : forall i j m n body G,
+  same_prog (compile (PRep i [] (m * n) body) [] G) (compile (PRep i [] n (PRep j [] m body)) [] G).
+Proof.
+  intros. unfold compile. apply same_prog_brel. rewrite !create_nil. apply rep_step. apply brel_empty.
+Qed.
+
+(* the constructor as modelled in Ctors.v: merged only when the receiver is an unnamed measurement-free repetition *)
+Theorem ctor_rep_same : forall i u n p G, same_prog (compile (ctor_rep i u n p) [] G) (compile (PRep i [] n p) [] G).
+Proof.
+  intros i u n p G.
+  assert (R : same_prog (compile (PRep i [] n p) [] G) (compile (PRep i [] n p) [] G)).
+  { unfold compile. apply same_prog_brel. rewrite !create_nil. apply internal_cong. apply brel_empty. }
+  destruct p as [a m d chs|a m subs|j m k body|a ren mren s|a ov s|a op l sc s|a s]; try exact R.
+  cbn [ctor_rep]. destruct m; [|exact R]. destruct u; [|exact R]. apply ctor_rep_merge.
+Qed.
